@@ -108,6 +108,12 @@ func (iter *FastIterator) Next() {
 		iter.fastIterator.Next()
 	}
 
+	if iter.fastIterator == nil {
+		// the underlying iterator could not be created; iter.err holds the reason
+		iter.valid = false
+		return
+	}
+
 	if iter.err == nil {
 		iter.err = iter.fastIterator.Error()
 	}
